@@ -88,7 +88,8 @@ def yaml_load(stream):
 
     value = yaml.load(stream, Loader=get_yaml_default_loader())
     if isinstance(value, dict) and value and all(v is None for v in value.values()):
-        if len(value) == 1 and stream.strip() == next(iter(value.keys())) + ":":
+        first_key = next(iter(value.keys()))
+        if len(value) == 1 and isinstance(first_key, str) and stream.strip() == first_key + ":":
             value = stream
         else:
             keys = set(stream.strip(" {}").replace(" ", "").split(","))
